@@ -143,10 +143,15 @@ def interpret(prog):
                 if who is not None:
                     info["phase_in_eclass"] += 1
             elif op == "export":
+                # PMS 10.3: EXPORT_FUNCTIONS defines phase() { <eclass>_phase "$@"; } -- whether or not (and wherever)
+                # <eclass>_phase itself is defined; only the stub matters for DEFINED_PHASES
+                order = s[2] if len(s) > 2 else "after"
                 for ph in s[1]:
-                    funcs.add(f"{who}_{ph}")
+                    if order != "never":
+                        funcs.add(f"{who}_{ph}")
                     funcs.add(ph)
                 info["export_functions"] += 1
+                info[f"export_{order}_definition"] += 1
             else:
                 raise core.HarnessError(f"unknown statement {s!r}")
 
@@ -239,7 +244,8 @@ def classify(prog, ref):
     if eapi < 8 and any(s[0] in ("set", "add") and s[1] in ("PROPERTIES", "RESTRICT") and s[2]
                         for n in set(sourced) for s in prog["eclasses"][n]):
         cl.append("pre8_prop_restrict_from_eclass")
-    for k in ("rdepend_default", "rdepend_default_with_eclass_depend", "unset_in_eclass", "export_functions"):
+    for k in ("rdepend_default", "rdepend_default_with_eclass_depend", "unset_in_eclass", "export_functions",
+              "export_after_definition", "export_before_definition", "export_between_definition", "export_never_definition"):
         if info[k]:
             cl.append(k)
     if info["phase_in_eclass"] and sourced:
@@ -430,7 +436,12 @@ def systematic_program(eapi, shift):
             flat += [["set", v, _sys_val(v, t + "flat")], ["copy", "DEPEND", "RDEPEND", True]]
     phases = list(ER.ALL_PHASE_FUNCS)
     inner.append(["phase", phases[shift % len(phases)]])
-    outer_b.append(["export", [phases[(shift + 5) % len(phases)]]])
+    # EXPORT_FUNCTIONS relative to the exported functions' definitions: before (usual Gentoo layout) / after / between /
+    # exported but never defined -- rotated so that every task (shift) has all four somewhere
+    orders = ("before", "after", "between", "never")
+    outer_b.append(["export", [phases[(shift + 5) % len(phases)], phases[(shift + 6) % len(phases)]],
+                    orders[(shift + int(eapi)) % 4]])
+    flat.insert(0, ["export", [phases[(shift + 11) % len(phases)]], orders[(shift + int(eapi) + 1) % 4]])
     after.append(["phase", phases[(shift + 9) % len(phases)]])
     before.append(["set", "SLOT", ["0"]])
     before.append(["set", "KEYWORDS", ["~amd64"]])
